@@ -187,6 +187,16 @@ func vC35_sleepObligations(d int64) {
 	}
 }
 
+// substituted for time.Sleep / time.After: any other way of waiting counts as a sleep too
+func vC35_sleep(d time.Duration) {
+	vC35_timers++
+	if d > 0 {
+		vC35_nom += int64(d)
+		vC35_pending += int64(d)
+	}
+}
+func vC35_after(d time.Duration) <-chan time.Time { return vC35_newTimer(d).C }
+
 // substituted for (*time.Timer).Stop
 func vC35_timerStop(t *time.Timer) bool { return true }
 
